@@ -410,7 +410,34 @@ func PFBStream(t *rapid.T) []byte {
 func ProgramText(t *rapid.T) (text []byte, kind string) {
 	cfg := psgen.Config{TypeLiteral: true}
 	var plain string
-	switch k := rapid.IntRange(0, 2).Draw(t, "programkind"); {
+	switch k := rapid.IntRange(0, 3).Draw(t, "programkind"); {
+	case k == 3:
+		// clear-text readstring payloads interleaved with comment lines: what
+		// readstring consumes takes part in line and column counting (a DSC
+		// line counts only at the start of a line), whichever way the bytes
+		// arrive
+		var b bytes.Buffer
+		b.WriteString("%!PS\n%%Title: readstring mix\n")
+		for i := rapid.IntRange(1, 4).Draw(t, "nreads"); i > 0; i-- {
+			n := rapid.IntRange(0, 30).Draw(t, "rslen")
+			if rapid.IntRange(0, 3).Draw(t, "rslong") == 0 {
+				n = rapid.IntRange(480, 1100).Draw(t, "rslonglen")
+			}
+			payload := make([]byte, n)
+			for k := range payload {
+				payload[k] = "ab \n\r%(\\\x00\xff"[rapid.IntRange(0, 9).Draw(t, "rsbyte")]
+			}
+			if n > 0 {
+				payload[n-1] = "\n\rx%"[rapid.IntRange(0, 3).Draw(t, "rslast")]
+			}
+			fmt.Fprintf(&b, "%d string currentfile exch readstring ", n)
+			b.Write(payload)
+			// directly behind the data: a DSC line, a comment, or tokens
+			b.WriteString(rapid.SampledFrom([]string{"%%Key: value\n", "%%Key: value\r%%+ more\n", "% comment\n", " ", "\n%%Next: 1\n", "\r\n%%Next: 2\r\n", ""}).Draw(t, "afterdata"))
+			b.WriteString(" pop pop\n")
+		}
+		b.WriteString("%%Trailer: t\n/done 1 def\n")
+		return b.Bytes(), "readstring+comments"
 	case k == 0:
 		// every lexical form, all separators and line ends, DSC comments with
 		// continuation lines (as one procedure body, which is left on the stack)
